@@ -183,6 +183,27 @@ def np_all(ex, st, args, kw, node):
     return z3.ForAll([k], z3.Implies(z3.And(k >= 0, k < c.n), z3.Or(c.nan_at(k), c.vals[k] != 0)))
 
 
+def np_sum(ex, st, args, kw, node):
+    c = _content(st, args[0])
+    if c is None:
+        return as_real(args[0])
+    nlit = z3.simplify(c.n)
+    if z3.is_int_value(nlit) and nlit.as_long() <= 8:
+        acc = z3.RealVal(0)
+        nan = False
+        for i in range(nlit.as_long()):
+            acc = acc + c.vals[i]
+            nan = zor(nan, c.nan_at(i)) if c.nans is not None else nan
+        return NR(acc, nan)
+    raise Unsupported('np.sum over a symbolic length needs a pack-specific contract')
+
+
+def np_where(ex, st, args, kw, node):
+    if len(args) != 1:
+        raise Unsupported('np.where with three arguments')
+    return ('where-mask', args[0])
+
+
 def np_count_nonzero(ex, st, args, kw, node):
     raise Unsupported('np.count_nonzero needs a pack-specific contract')
 
@@ -200,7 +221,7 @@ NUMPY = {
     'np.greater': _elementwise_cmp(ast.Gt()), 'np.greater_equal': _elementwise_cmp(ast.GtE()),
     'np.equal': _elementwise_cmp(ast.Eq()), 'np.not_equal': _elementwise_cmp(ast.NotEq()),
     'np.logical_and': _logical('and'), 'np.logical_or': _logical('or'), 'np.logical_not': _logical('not'),
-    '<value>.any': value_any, '<value>.all': value_any,
+    '<value>.any': value_any, '<value>.all': value_any, 'np.sum': np_sum, 'np.where': np_where,
 }
 
 
